@@ -174,8 +174,17 @@ def div(a, b):
 
 
 def powv(a, p):
-    return {('pow', freeze(a), akey(p) if not isinstance(p, (int, str))
-             else p): ONE}
+    """Pointwise power with a scalar exponent (Rat)."""
+    p = S(p)
+    if p.is_const() and p.constant().denominator == 1 and \
+            1 <= p.constant() <= 8:
+        out = dict(a)
+        for _ in range(int(p.constant()) - 1):
+            out = mul(out, a)
+        return out
+    if p.is_zero():
+        return sym('ONE')
+    return {('pow', freeze(a), p): ONE}
 
 
 def fn(name, *args):
@@ -535,4 +544,8 @@ def _datom(k, h, reg, xsym):
         return out
     if not mentions(k, ('sym', xsym)):
         return {}
+    if k[0] == 'pow' and isinstance(k[2], Rat):
+        base, p = thaw(k[1]), k[2]
+        db = deriv(base, h, reg, xsym)
+        return scale(mul(powv(base, p - ONE), db), p)
     raise Undecided('cannot differentiate atom %r' % (k,))
